@@ -109,7 +109,7 @@ func c17Rules(p *Prog, counters map[string]bool) *RuleSet {
 				return false
 			}},
 			equal("digest-eq", "SHA-384 recomputed over the received bytes equals the announced digest",
-				provAnd(sumResult, func(m *Matcher, v ssa.Value) bool { return !digestField(m, v) }), digestField),
+				provAnd(hasProvX("call:hash.Hash.Sum"), func(m *Matcher, v ssa.Value) bool { return !digestField(m, v) }), digestField),
 			AtomDef{Name: "digest-absent", Doc: "no digest was announced (len(digest) == 0)", Edge: func(m *Matcher, pd Pred, holds bool) bool {
 				var x ssa.Value
 				switch pd.Kind {
